@@ -173,11 +173,24 @@ def evaluate(d):
         f = F()
         vbits, orc, last = [], None, None
         toks = []
+        want = False
         for op in d["ops"]:
             if op == "del":
                 del f.values
                 toks.append("del")
                 want = False
+            elif op in ("badlen", "badtype"):
+                # an assignment the library rejects (wrong length: AssertionError; a non-number: TypeError), caught
+                # by the caller: the fitness must be left as it was.  The model is told "an assignment of the
+                # wrong length" in both cases (Fitness.step leaves the state unchanged).
+                bad = tuple([0.0] * (len(w) + 1)) if op == "badlen" else tuple([None] * len(w))
+                try:
+                    f.values = bad
+                    if orc is None:
+                        orc = "assignment of %r to a fitness with %d weights was accepted" % (bad, len(w))
+                except (AssertionError, TypeError):
+                    pass
+                toks.append(slist([0] * (len(w) + 1)))
             else:
                 vals = [fr(x) for x in op]
                 f.values = tuple(float(x) for x in vals)
@@ -186,7 +199,7 @@ def evaluate(d):
                 last = vals
             vbits.append(f.valid)
             if f.valid != want and orc is None:
-                orc = "valid=%s after %s" % (f.valid, "deletion" if op == "del" else "assignment")
+                orc = "valid=%s after %s" % (f.valid, "deletion" if op == "del" else "a rejected assignment" if op in ("badlen", "badtype") else "assignment")
             if want and exact(f.values) != tuple(last) and orc is None:
                 orc = "values read back differ from last assignment"
         return Case(d, ["C01 hist %s %s" % (slist(w), " ".join(toks))],
@@ -201,6 +214,15 @@ def evaluate(d):
             if op == "del":
                 del f.values
                 toks.append("del"); want_valid = False
+            elif op in ("badlen", "badtype"):
+                bad = tuple([0.0] * (len(w) + 1)) if op == "badlen" else tuple([None] * len(w))
+                try:
+                    f.values = bad
+                    if orc is None:
+                        orc = "assignment of %r to a fitness with %d weights was accepted" % (bad, len(w))
+                except (AssertionError, TypeError):
+                    pass
+                toks.append(slist([0] * (len(w) + 1)))
             elif isinstance(op, dict):
                 cv = op["cv"]
                 f.constraint_violation = None if cv is None else list(cv)
@@ -413,7 +435,7 @@ def generate(tier, rng, mult):
     cvops = [{"cv": None}, {"cv": [True]}, {"cv": [False]}, {"cv": [1, -1]}]
     for w in (["1"], ["-1", "2"]):
         vs = [[str(i + 1) for i in range(len(w))], ["0"] * len(w)]
-        atoms = ["del"] + vs + cvops
+        atoms = ["del", "badlen", "badtype"] + vs + cvops
         for L in (1, 2, 3):
             for ops in itertools.product(atoms, repeat=L):
                 yield {"k": "chist", "w": w, "ops": list(ops)}
@@ -511,7 +533,8 @@ def generate(tier, rng, mult):
         elif kind < 0.9:
             ops = []
             for _ in range(rng.randint(1, 8)):
-                ops.append("del" if rng.random() < 0.4 else [rand_dyadic(rng) for _ in range(n)])
+                r = rng.random()
+                ops.append("del" if r < 0.3 else "badlen" if r < 0.4 else "badtype" if r < 0.5 else [rand_dyadic(rng) for _ in range(n)])
             yield {"k": "hist", "w": w, "ops": ops}
         else:
             cv = lambda: rng.choice([None, [], [False], [True], [rng.random() < 0.5 for _ in range(3)], [rng.randint(-2, 2) for _ in range(3)]])
